@@ -883,9 +883,9 @@ Proof.
       * apply HI_declare; auto.
       * apply CS_declare; auto. apply queue_found_none_get; auto.
   - destruct (alookup _ _ _); [|exact Hc]. destruct (seqb ex ""); [exact Hc|].
-    destruct (queue_found s q); [|exact Hc]. destruct (locked _ _); [exact Hc|]. destruct (bad_xmatch _); [exact Hc|]. cbn [fst].
+    destruct (queue_found s q); [|exact Hc]. destruct (locked _ _); [exact Hc|]. destruct (bad_xmatch _); [exact Hc|]. destruct (extype_eqb _ ExTopic && bad_pattern _)%bool; [exact Hc|]. cbn [fst].
     eapply KFX; [exact K|apply FX_same; reflexivity].
-  - destruct (alookup _ _ _); [|exact Hc]. destruct (queue_found s q); [|exact Hc]. destruct (locked _ _); [exact Hc|]. destruct (bad_xmatch _); [exact Hc|]. cbn [fst].
+  - destruct (alookup _ _ _); [|exact Hc]. destruct (queue_found s q); [|exact Hc]. destruct (locked _ _); [exact Hc|]. destruct (bad_xmatch _); [exact Hc|]. destruct (extype_eqb _ ExTopic && bad_pattern _)%bool; [exact Hc|]. cbn [fst].
     eapply KFX; [exact K|apply FX_same; reflexivity].
   - (* MQDelete *)
     destruct (queue_found s q); [|exact Hc]. destruct (locked _ _); [exact Hc|]. rewrite Fd. cbn [negb].
